@@ -1,8 +1,8 @@
 #!/bin/bash
-# usage: tools/sweep.sh <tier> <seed>...   runs every check with the given seeds, prints one line per run
+# usage: [CHECKS="01 02"] tools/sweep.sh <tier> <seed>...   runs every check (or the listed ones) with the given seeds, prints one line per run
 tier=$1; shift
 for seed in "$@"; do
-  for i in $(seq -w 1 20); do
+  for i in ${CHECKS:-$(seq -w 1 20)}; do
     s=$(date +%s)
     out=$(VERIF_SEED=$seed timeout 7200 ./vcheck C$i --tier $tier 2>&1); rc=$?
     echo "seed=$seed C$i rc=$rc $(( $(date +%s) - s ))s $(echo "$out" | grep -c '^VIOLATION') viol | $(echo "$out" | grep 'INFRA\|^VIOLATION' | head -2 | cut -c1-200)"
